@@ -211,31 +211,57 @@ func runCase(p *Prop, o *oracle.O, c Case) outcome {
 	return out
 }
 
-// shrink greedily minimises a case while `bad` stays true.
+// shrink minimises a case while `bad` stays true: delta debugging on the script (chunks of
+// halving size, then single lines), then the property's own candidates; bounded evaluations.
 func shrink(p *Prop, c Case, bad func(Case) bool) Case {
 	cur := c
 	evals := 0
-	for round := 0; round < 200 && evals < 120; round++ {
-		improved := false
-		var cands []Case
-		if len(cur.Script) > 1 && !p.FixedLayout {
-			for i := range cur.Script {
-				if p.Protected != nil && p.Protected(cur.Script[i]) {
-					continue
+	budget := 160
+	try := func(cand Case) bool {
+		if evals >= budget {
+			return false
+		}
+		evals++
+		return bad(cand)
+	}
+	if !p.FixedLayout {
+		for chunk := len(cur.Script) / 2; chunk >= 1 && evals < budget; {
+			removed := false
+			for start := 0; start+chunk <= len(cur.Script) && evals < budget; {
+				var s []string
+				ok := true
+				for i, ln := range cur.Script {
+					if i >= start && i < start+chunk {
+						if p.Protected != nil && p.Protected(ln) {
+							ok = false
+							break
+						}
+						continue
+					}
+					s = append(s, ln)
 				}
-				s := append(append([]string{}, cur.Script[:i]...), cur.Script[i+1:]...)
-				cands = append(cands, Case{Script: s, Tags: cur.Tags, Nontrivial: cur.Nontrivial, Origin: cur.Origin})
+				if ok && len(s) < len(cur.Script) && try(Case{Script: s, Tags: cur.Tags, Nontrivial: cur.Nontrivial, Origin: cur.Origin}) {
+					cur.Script = s
+					removed = true
+				} else {
+					start += chunk
+				}
+			}
+			if !removed || chunk == 1 {
+				if chunk == 1 && !removed {
+					break
+				}
+				chunk /= 2
+				if chunk == 0 && removed {
+					chunk = 1
+				}
 			}
 		}
-		if p.Shrink != nil {
-			cands = append(cands, p.Shrink(cur)...)
-		}
-		for _, cand := range cands {
-			evals++
-			if evals > 120 {
-				break
-			}
-			if bad(cand) {
+	}
+	for round := 0; round < 50 && evals < budget && p.Shrink != nil; round++ {
+		improved := false
+		for _, cand := range p.Shrink(cur) {
+			if try(cand) {
 				cur = cand
 				improved = true
 				break
@@ -432,6 +458,12 @@ func Run(p *Prop, opts Opts) (*Result, error) {
 		unknownMon := ""
 		for _, m := range oc.mon {
 			if id := attribute(oc.c, oc.real, m); id != "" && oc.disLine < 0 {
+				if res.KnownHits[id] == 0 && !strings.HasPrefix(oc.c.Origin, "corpus:") {
+					// keep one sample of every attributed finding for inspection (.work, not evidence)
+					_ = os.MkdirAll(filepath.Join(opts.VerifDir, ".work"), 0o755)
+					_ = os.WriteFile(filepath.Join(opts.VerifDir, ".work", "known-"+id+".script"),
+						[]byte("# "+m+"\n"+strings.Join(oc.c.Script, "\n")+"\n"), 0o644)
+				}
 				res.KnownHits[id]++
 				reproduced[id] = true
 			} else if unknownMon == "" {
